@@ -23,3 +23,18 @@ func VerifHandleConnection(ctx context.Context, sess types.Session, conn io.Read
 	a := NewTcpAdapter(ctx, sess)
 	a.BaseAdapter.handleConnection(a, conn)
 }
+
+// VerifQuicAddr / VerifKcpAddr: the address a listening adapter was bound to (port 0 = picked by the kernel).
+func VerifQuicAddr(a *QuicAdapter) string { return a.listener.Addr().String() }
+func VerifKcpAddr(k *KcpAdapter) string   { return k.listener.Addr().String() }
+
+// VerifQuicFinish ends the sending direction of a QUIC stream connection (FIN) without closing the QUIC
+// connection: the first half of QuicStreamConn.Close. The peer then sees the stream's last bytes together with,
+// or followed by, io.EOF — the (n > 0, io.EOF) result a QUIC stream read is allowed to return.
+func VerifQuicFinish(c io.ReadWriteCloser) error {
+	q, ok := c.(*QuicStreamConn)
+	if !ok || q.stream == nil {
+		return io.ErrClosedPipe
+	}
+	return (*q.stream).Close()
+}
